@@ -614,8 +614,9 @@ def call_lua_sandbox(
                 )
             else:
                 # Expand all templates, in case the Lua code actually
-                # inspects the output.
-                v = ctx._encode(v)
+                # inspects the output.  (expand() handles <nowiki> and
+                # comments in the text before it encodes it; encoding the
+                # text here first would hide them from that step.)
                 ctx.expand_stack.append("frame:preprocess()")
                 ret = expand_all_templates(v)
                 ctx.expand_stack.pop()
